@@ -9,6 +9,9 @@ MINLIQ = 1000
 
 
 def monitor(cfg, op, o):
+    if op[0] == "AddInitial" and o["ok"] and o["pre"]["S"] != 0:
+        # the first deposit is the ONLY initial one: a later "initial" deposit would overwrite the LP supply (and the locked floor)
+        return [("initial-liquidity-on-funded-pool", f"{op} succeeded although the LP supply was {o['pre']['S']}; supply now {o['S']}, reserves {(o['r1'], o['r2'])}")]
     out = []
     pre = o["pre"]
     if o["S"] > 0 and (o["S"] < MINLIQ or o["lp"][0] < MINLIQ):
@@ -86,6 +89,8 @@ def nontrivial(cfg, op, o):
         if not (refund or any(inexact)):
             return None
         return ("Add", first_limits, refund) + inexact + (len(str(S)) // 4, len(str(r1)) // 4, len(str(r2)) // 4)
+    if op[0] == "AddInitial":
+        return ("AddInitial", "on-funded-pool")          # only a broken contract accepts this
     _, c, lp, m1, m2 = op
     inexact = ((lp * r1) % S != 0, (lp * r2) % S != 0)
     if not any(inexact):
